@@ -327,8 +327,8 @@ func c09(c *core.Ctx, r *core.Report) {
 	sites, okSites := 0, 0
 	byClass := map[string]int{}
 	scanBodies, scanOK := defScanRules(c, r, func(row string) string {
-		if row == "error" {
-			return "C09.E1"
+		if row == "error" || row == "joined" {
+			return "C09.E1" // (a scan that waits for ever, or returns before its scanners have answered, reports nothing)
 		}
 		return ""
 	})
@@ -418,10 +418,10 @@ func c09(c *core.Ctx, r *core.Report) {
 				byClass["never-fails"]++
 				okSites++
 				r.Hold("C09.E1", cons, pos, "exception: formatted output into a *strings.Builder: its Write is documented to always return a nil error")
-			case name == "(*strings.Builder).WriteString":
+			case name == "(*strings.Builder).WriteString" || name == "(*strings.Builder).WriteByte" || name == "(*strings.Builder).WriteRune" || name == "(*strings.Builder).Write":
 				byClass["never-fails"]++
 				okSites++
-				r.Hold("C09.E1", cons, pos, "exception: strings.Builder.WriteString is documented to always return a nil error")
+				r.Hold("C09.E1", cons, pos, "exception: the write methods of strings.Builder are documented to always return a nil error")
 			case u.Class == core.ErrDropped && anyClosureArgReturnsOnlyNil(call) && forwardsOnlyCallbackError(c, com.StaticCallee(), 0):
 				byClass["callback-returns-nil"]++
 				okSites++
@@ -432,7 +432,7 @@ func c09(c *core.Ctx, r *core.Report) {
 				byClass["parse-or-literal"]++
 				okSites++
 				r.Hold("C09.E1", cons, pos, "exception: func-tag result matching falls back to comparing with the literal text when it does not parse")
-			case (u.Class == core.ErrSwallow || u.Class == core.ErrDropped) && (scanBodies[core.TopLevel(fn)] || scanBodies[fn]):
+			case (u.Class == core.ErrSwallow || u.Class == core.ErrDropped || (u.Class == core.ErrOther && core.IsInvoke(com, c.Roles().DRPPPostProcess))) && (scanBodies[core.TopLevel(fn)] || scanBodies[fn]):
 				if scanOK {
 					byClass["accumulate-then-test"]++
 					okSites++
